@@ -10,7 +10,7 @@ import numpy as np
 import sympy as sp
 
 from .core import AnalysisError
-from .symx import PyStub, Text, Opaque, WouldRaise, is_arr, StrLike
+from .symx import PyStub, Text, Opaque, WouldRaise, is_arr, StrLike, ModelError
 
 
 class UnitExpr(StrLike):
@@ -318,3 +318,125 @@ def style_keys(ctx):
     if len(out) < 8:
         raise AnalysisError('style.unit: only %d unit styles found' % len(out))
     return out
+
+
+# ------------------------------------------------------------------ reader-side models: text lines as token lists, data frames with row order
+
+class Line(PyStub):
+    """one text line: whitespace-separated tokens (str keywords, sympy symbols / ints for numbers) and an optional trailing '#' comment"""
+
+    def __init__(self, tokens=(), comment=None):
+        self.tokens = list(tokens)
+        self.comment = None if comment is None else list(comment)
+
+    def decode(self, enc='UTF-8'):
+        return self
+
+    def split(self):
+        return list(self.tokens)
+
+    def strip(self):
+        return ' '.join(str(t) for t in self.tokens)
+
+    def index(self, ch):
+        if ch == '#' and self.comment is not None:
+            return len(self.tokens)          # token position stands for the character position
+        raise ModelError('ValueError', 'substring not found')
+
+    def __getitem__(self, k):
+        if isinstance(k, slice):
+            n = len(self.tokens)
+            if k.start in (None, 0) and k.stop is not None:
+                return Line(self.tokens[:k.stop])
+            if k.start == n + 1 and k.stop is None and self.comment is not None:
+                return Line(self.comment)
+            if k.start in (None, 0) and k.stop is None:
+                return self
+            raise Opaque('line slice %r' % (k,))
+        if k == 0 and self.tokens:
+            return str(self.tokens[0])[0]
+        raise Opaque('line index %r' % (k,))
+
+    def __repr__(self):
+        return 'Line(%s%s)' % (' '.join(map(str, self.tokens)), '' if self.comment is None else ' # ' + ' '.join(map(str, self.comment)))
+
+
+class LineFile(PyStub):
+    def __init__(self, lines):
+        self.lines = list(lines)
+
+    def __iter__(self):
+        return iter(self.lines)
+
+    def readlines(self):
+        return list(self.lines)
+
+
+def numeric_tokens(xs):
+    return all(not isinstance(x, str) for x in xs)
+
+
+def np_array_typed(x, dtype=None, **kw):
+    """numpy.array on token lists: converting a keyword token to a number raises, as numpy does"""
+    if isinstance(x, (list, tuple)):
+        flat = []
+
+        def walk(v):
+            if isinstance(v, (list, tuple)):
+                for y in v:
+                    walk(y)
+            else:
+                flat.append(v)
+        walk(x)
+        if dtype is not None and str(dtype).startswith(('int', 'float')) and not numeric_tokens(flat):
+            raise ModelError('ValueError', 'could not convert string to number')
+        a = np.empty(np.shape(x) if len(flat) else (0,), dtype=object)
+        if len(flat):
+            a[...] = np.array(x, dtype=object)
+        return a
+    return x
+
+
+np_array_typed._wants_dtype = True
+
+
+class Frame(PyStub):
+    """data frame with explicit rows: columns {name: [values per row]}, rows in a definite order"""
+
+    def __init__(self, cols, nrows=None):
+        self.cols = {k: list(v) for k, v in cols.items()}
+        self.n = nrows if nrows is not None else (len(next(iter(self.cols.values()))) if self.cols else 0)
+        self.sorted_by = None
+
+    def __contains__(self, k):
+        return k in self.cols
+
+    def __len__(self):
+        return self.n
+
+    def __getitem__(self, k):
+        if isinstance(k, list):
+            miss = [c for c in k if c not in self.cols]
+            if miss:
+                raise KeyError(miss)
+            f = Frame({c: self.cols[c] for c in k}, self.n)
+            f.sorted_by = self.sorted_by
+            return f
+        if k not in self.cols:
+            raise KeyError(k)
+        return np.array(self.cols[k], dtype=object)
+
+    def sort_values(self, by, **kw):
+        keys = self.cols[by]
+        order = sorted(range(self.n), key=lambda r: int(keys[r]))
+        f = Frame({c: [v[r] for r in order] for c, v in self.cols.items()}, self.n)
+        f.sorted_by = by
+        return f
+
+    @property
+    def values(self):
+        a = np.empty((self.n, len(self.cols)), dtype=object)
+        for j, c in enumerate(self.cols):
+            for r in range(self.n):
+                a[r, j] = self.cols[c][r]
+        return a
